@@ -3,6 +3,7 @@
 cd /verif || exit 3
 tier="${1:-quick}"
 rc=0
+export PYVC_STRICT=1
 for p in $(python3-vt -c "import json; print(' '.join(c['property_id'] for c in json.load(open('MANIFEST.json'))['checks']))"); do
   out=$(PYVC_TIMING=1 ./check "$p" --tier "$tier" 2>&1); r=$?
   echo "$out" | grep -E "^\[timing\]" | head -2
